@@ -179,6 +179,10 @@ def run_request(variant, pseed, fault=None, cseed=0, keep=False, dcfg_override=N
         return None
     w = World(pch, device_cfg=dcfg, v1=v1, fault_fn=fault_fn)
     w.bring_up()
+    if variant == "uiHeartbeat" and pseed % 5 == 4:
+        # the device was left in the UI heartbeat app (an earlier heartbeat whose way back failed, an
+        # operator): the heartbeat is gathered right there, nothing is exited
+        w.device.mode = L.MODE_UI_HEARTBEAT
     if variant == "blockchainState":
         # the state the device reports, by policy seed: the firmware strips leading zero bytes from the
         # total difficulty, so a difficulty of zero is a well-formed answer with an empty payload
